@@ -478,3 +478,51 @@ impl<VM: VMBinding> LargeObjectSpace<VM> {
 fn get_super_page(cell: Address) -> Address {
     cell.align_down(BYTES_IN_PAGE)
 }
+
+/// Verification hooks (only with `--cfg mmtk_verif`): call the private mark transition of the
+/// plan's `LargeObjectSpace` from harness threads.
+#[cfg(mmtk_verif)]
+pub mod verif_hooks {
+    use super::*;
+
+    /// `LargeObjectSpace::test_and_mark(object, value)` on the plan's large object space.
+    /// Returns `None` if the plan has no `LargeObjectSpace`.
+    pub fn test_and_mark<VM: VMBinding>(
+        mmtk: &crate::MMTK<VM>,
+        object: ObjectReference,
+        value: u8,
+    ) -> Option<bool> {
+        let mut res = None;
+        mmtk.get_plan().for_each_space(&mut |s| {
+            if res.is_none() {
+                if let Some(los) = s.downcast_ref::<LargeObjectSpace<VM>>() {
+                    res = Some(los.test_and_mark(object, value));
+                }
+            }
+        });
+        res
+    }
+
+    /// Set `in_nursery_gc` of the plan's large object space (as `prepare(full_heap)` does).
+    ///
+    /// # Safety
+    /// No other thread may use the plan while this runs.
+    pub unsafe fn set_in_nursery_gc<VM: VMBinding>(mmtk: &crate::MMTK<VM>, nursery: bool) {
+        mmtk.get_plan_mut().for_each_space_mut(&mut |s| {
+            if let Some(los) = s.downcast_mut::<LargeObjectSpace<VM>>() {
+                los.in_nursery_gc = nursery;
+            }
+        });
+    }
+
+    /// (MARK_BIT, NURSERY_BIT, LOS_BIT_MASK, current mark_state)
+    pub fn consts<VM: VMBinding>(mmtk: &crate::MMTK<VM>) -> (u8, u8, u8, u8) {
+        let mut ms = 0;
+        mmtk.get_plan().for_each_space(&mut |s| {
+            if let Some(los) = s.downcast_ref::<LargeObjectSpace<VM>>() {
+                ms = los.mark_state;
+            }
+        });
+        (MARK_BIT, NURSERY_BIT, LOS_BIT_MASK, ms)
+    }
+}
